@@ -478,8 +478,8 @@ package tchannel
 //@   ensures old(response.err) != nil ==> out == old(response.err) && errAttempts(old(response.conn)) == old(errAttempts(response.conn))
 //@   label sends-this-error-for-this-call
 //@   ensures old(response.err) == nil ==> errAttempts(old(response.conn)) == old(errAttempts(response.conn)) + 1 &&
-//@             sysErrID(old(response.conn)) == response.mex.msgID && sysErrCode(old(response.conn)) == GetSystemErrorCode(err) &&
-//@             sysErrMsg(old(response.conn)) == GetSystemErrorMessage(err)
+//@             sysErrID(old(response.conn)) == old(response.mex.msgID) && sysErrCode(old(response.conn)) == old(GetSystemErrorCode(err)) &&
+//@             sysErrMsg(old(response.conn)) == old(GetSystemErrorMessage(err))
 //@   label response-is-complete
 //@   ensures old(response.err) == nil ==> response.systemError && response.state == reqResWriterComplete
 //@   ensures response.conn == old(response.conn) && response.mex == old(response.mex)
